@@ -1,6 +1,6 @@
 (** Prop_C17.v -- C17: protocol discipline. *)
 From MW Require Import Base Store Monad Usage Server Websocket Service Findings Inv Obs
-     ProtoFacts StepFacts Corollaries Inst_Params OpFacts.
+     ProtoFacts StepFacts Corollaries Inst_Params OpFacts HistFacts.
 Local Open Scope list_scope.
 
 (** every connection is first sent `welcome` *)
@@ -65,6 +65,19 @@ Theorem C17_on_message_keeps_invariant :
      (fun e s' => HInv s' /\ ids_same s s' /\ log_ext s s' /\ esc s c msg o e) s.
 Proof. exact on_message_spec. Qed.
 Print Assumptions C17_on_message_keeps_invariant.
+
+(** every command carrying a type, on any connection, in any state, is answered
+    FIRST by an ack echoing its id, whatever follows *)
+Theorem C17_ack_first : ltac:(let t := type of ack_first in exact t).
+Proof. exact ack_first. Qed.
+Check C17_ack_first.
+Print Assumptions C17_ack_first.
+
+(** every frame a command produces goes to its sender (except the `message` frames of an add) *)
+Theorem C17_frames_only_to_sender : ltac:(let t := type of frames_only_to_sender in exact t).
+Proof. exact frames_only_to_sender. Qed.
+Check C17_frames_only_to_sender.
+Print Assumptions C17_frames_only_to_sender.
 
 (** KF3 is real in the model: with 1..999 and the drawn value taken, allocate raises *)
 Example C17_kf3_refuted :
